@@ -36,6 +36,7 @@ ALWAYS_INLINE = {
     "transactions::MergeOverlay::pick_match",
     "wasm::encode_response_data",
     "wasm::WasmKeeper::with_storage_readonly",
+    "addresses::instantiate_address",
 }
 
 
